@@ -119,7 +119,7 @@ def main():
     samples = [o.to_json() for o in obls[:6]] + [o.to_json() for o in failed[:6]]
     fns = sorted(set(o.fn for o in obls if o.fn))
     coverage = {
-        "obligations": len(obls),
+        "obligations": len([o for o in obls if o.status != BOUNDED_OK]),
         "discharged": n_dis,
         "bounded_obligations": [o.to_json() for o in obls if o.status == BOUNDED_OK],
         "bounded_ok": n_bnd,
